@@ -44,7 +44,26 @@ func throughInterceptors(e error) (error, error) {
 // the direct EncodeError/DecodeError transfer; the status code is the attached
 // gRPC code (Unknown otherwise); nil and status errors pass unchanged.
 func H_C20_Interceptors(v *sym.V) {
-	switch v.Choice("case", 6) {
+	switch v.Choice("case", 7) {
+	case 6:
+		// an attached code, symbolic (every uint32 but OK), on a few fixed shapes
+		c := v.Uint32("code")
+		v.Assume(c != 0) // codes.OK is not an error status
+		var e error = errors.New("x")
+		switch v.Choice("codeshape", 3) {
+		case 0:
+			e = extgrpc.WrapWithGrpcCode(e, codes.Code(c))
+		case 1:
+			e = errors.Wrap(extgrpc.WrapWithGrpcCode(errors.WithHint(e, "h"), codes.Code(c)), "w")
+		case 2:
+			e = extgrpc.WrapWithGrpcCode(errors.Handled(e), codes.Code(c))
+		}
+		got, werr := throughInterceptors(e)
+		direct := wire.Hop(e)
+		v.Assert("status-code", uint32(grpcstatus.Code(werr)) == c)
+		v.Assert("grpc-code", uint32(extgrpc.GetGrpcCode(got)) == c)
+		compareTrees(v, "client-code", nil, direct, got)
+		return
 	case 4:
 		// a tree whose innermost leaf is a status error is an ordinary error
 		st := gogostatus.Error(codes.NotFound, "inner status")
@@ -87,12 +106,6 @@ func H_C20_Interceptors(v *sym.V) {
 	b := build(v, g, "e")
 	e := b.Err
 	want := extgrpc.GetGrpcCode(e)
-	if v.Choice("case2", 2) == 1 {
-		c := v.Uint32("code")
-		v.Assume(c != 0) // codes.OK is not an error status
-		e = extgrpc.WrapWithGrpcCode(e, codes.Code(c))
-		want = codes.Code(c)
-	}
 	got, werr := throughInterceptors(e)
 	v.Assert("status-code", grpcstatus.Code(werr) == want)
 	direct := wire.Hop(e)
